@@ -7,13 +7,13 @@ from ..compare import Failure, check, lib
 from ..sub import Sub
 
 RULE = "Non-trivial: marginal with >= 2 unsorted coordinates, or R >= 2; linear sum with K >= 2 rows or R >= 2."
-BOUNDS = {"D": "1..6", "R": "1..4", "N": "1..3"}
+BOUNDS = {"D": "1..8 and 24, 40", "R": "1..4", "N": "1..3"}
 ASSUMPTIONS = ["reference 1: ln N(x_dims; mu[dims], Sigma[dims,dims]) / ln N(z; W mu + b, W Sigma W') by numpy Cholesky",
                "reference 2 (marginal): Schur complement on the joint precision = integral of the joint density over the dropped coordinates"]
 
 
 def _pool(tier):
-    base = [(1, 1, 1), (2, 2, 2), (3, 3, 1), (4, 2, 2), (5, 1, 1), (3, 4, 2), (2, 1, 3), (6, 2, 1), (7, 1, 1)]
+    base = [(1, 1, 1), (2, 2, 2), (3, 3, 1), (4, 2, 2), (5, 1, 1), (3, 4, 2), (2, 1, 3), (6, 2, 1), (7, 1, 1), (24, 2, 1), (40, 1, 2)]
     if tier == "thorough":
         base += [(4, 4, 1), (6, 1, 2), (5, 3, 2), (2, 3, 1), (3, 1, 3), (1, 4, 2), (4, 1, 1), (5, 2, 3), (7, 2, 1), (8, 1, 2)]
     return base
@@ -26,7 +26,7 @@ def _strategy_marg(shapes):
         diag = draw(st.booleans())
         dims = draw(gen.perm_prefix(D))
         return {"D": D, "R": R, "N": N, "diag": diag, "dims": dims,
-                "p": draw(gen.measure_params("diag_pdf" if diag else "pdf", R, D, draw(st.sampled_from([10.0, 100.0])), extreme=True)),
+                "p": draw(gen.measure_params("diag_pdf" if diag else "pdf", R, D, draw(st.sampled_from([10.0, 100.0])), extreme="wide" if D >= 17 else True)),
                 "upd": draw(gen.maybe_update("diag_pdf" if diag else "pdf", R, D)),
                 "x": draw(gen.arr((N, len(dims)), -3, 3)),
                 # a second, different query on the same object (a result remembered from the first must not leak)
@@ -50,9 +50,11 @@ def _run_marg(case):
     ok, m = lib(fails, "get_marginal", lambda: p.get_marginal(libx.IDX(dims)))
     if not ok:
         return fails
-    x = np.asarray(case["x"], float)
     mu_m = mu[:, dims]
     Sig_m = Sig[:, dims][:, :, dims]
+    sd0 = np.sqrt(np.einsum("ii->i", Sig[0]))
+    # evaluation points in the density's own units: component 0's mean + z standard deviations
+    x = mu_m[0] + np.asarray(case["x"], float) * sd0[dims]
     want, scale = oracle.mvn_ln(x, mu_m, Sig_m)
     ok, got = lib(fails, "get_marginal.evaluate_ln", lambda: m.evaluate_ln(J(x)))
     if ok:
@@ -82,7 +84,7 @@ def _run_marg(case):
         check(fails, "marginal:integral_of_joint", got, want2, (scale2 + np.abs(lnZ)[:, None]) * kap)
     if case.get("dims2"):
         d2 = list(case["dims2"])
-        x2 = np.asarray(case["x2"], float)[:, d2]
+        x2 = mu[0, d2] + np.asarray(case["x2"], float)[:, d2] * sd0[d2]
         ok2, m2 = lib(fails, "get_marginal_second", lambda: p.get_marginal(libx.IDX(d2)))
         if ok2:
             w2, s2 = oracle.mvn_ln(x2, mu[:, d2], Sig[:, d2][:, :, d2])
@@ -109,7 +111,7 @@ def _nontrivial_marg(case):
 
 def _labels_marg(case):
     d = case["dims"]
-    return [f"diag={case['diag']}", "all_coords" if len(d) == case["D"] else "subset", "unsorted" if d != sorted(d) else "sorted", "after_update" if case.get("upd") else "fresh"]
+    return [f"diag={case['diag']}", "all_coords" if len(d) == case["D"] else "subset", "unsorted" if d != sorted(d) else "sorted", "after_update" if case.get("upd") else "fresh", "D>=17" if case["D"] >= 17 else "D<=8"]
 
 
 def _strategy_lin(shapes):
@@ -181,7 +183,7 @@ def _nontrivial_lin(case):
 
 
 def _labels_lin(case):
-    return [f"combo={case['combo']}", "b" if case["b"] is not None else "no_b", f"diag={case['diag']}", "K=D" if case["K"] == case["D"] else "K<D"]
+    return [f"combo={case['combo']}", "b" if case["b"] is not None else "no_b", f"diag={case['diag']}", "K=D" if case["K"] == case["D"] else "K<D", "D>=17" if case["D"] >= 17 else "D<=8"]
 
 
 SUBS = [
